@@ -374,6 +374,31 @@ func c13(run *core.Run, replay string) {
 			}
 		}
 	}
+	// content-specific transforms on the content they are made for: more sizes and instances (they decline on most other shapes)
+	affinity := map[string][]string{
+		"DNA":  {"dna"},
+		"PACK": {"smallalpha", "dna", "numeric", "base64", "alpha:7", "alpha:16", "alpha:3"},
+		"UTF":  {"cyrillic", "cjk", "utf8big", "utf8dirty"},
+		"TEXT": {"text", "textcrlf", "html", "crlfcut", "cyrillic"},
+		"EXE":  {"elfx86", "elfarm64", "pe"},
+		"MM":   {"wav", "bmp", "ppm"},
+		"RLT":  {"runs", "longruns", "zeros", "constchunks"},
+		"ZRLT": {"zeros", "longruns", "runs"},
+	}
+	for t, shs := range affinity {
+		for hi, sh := range shs {
+			for si, sz := range []int{64, 300, 1024, 1500, 4096, 5000, 16384, 33000, 65536, 100000, 200000, 262144, 300000} {
+				for q := 0; q < run.Pick(4, 12); q++ {
+					for ei, ent := range entVariants(t) {
+						if !run.Thorough() && (si+hi+q+ei)%2 == 1 {
+							continue
+						}
+						add(trCase{T: t, Entropy: ent, Shape: sh, Size: sz + q*7, Seed: run.Seed*131 + int64(q*1000+si), Pre: []string{"", "TEXT", "", "RLT"}[(q+si)%4]})
+					}
+				}
+			}
+		}
+	}
 	// executable-looking blocks with garbage headers: each instance draws different header fields, so many seeds per shape
 	nbogus := run.Pick(120, 1500)
 	for i := 0; i < nbogus; i++ {
